@@ -41,7 +41,11 @@ class MemFace(Face):
 
     local = True
 
+    on_local_check = None     # optional hook: time may pass while the application builds a command
+
     def isLocalFace(self):
+        if self.on_local_check is not None:
+            self.on_local_check()
         return self.local
 
     def take(self):
